@@ -68,7 +68,7 @@ def elf_bytes(rng):
     ident = bytes([0x7f, 0x45, 0x4c, 0x46, cls, enc]) + bytes(10)
     if rng.random() < 0.1: ident = bytes(rng.randrange(256) for _ in range(rng.randrange(0, 16)))
     e = "<" if enc != 2 else ">"
-    big = [0, 1, 52, 64, 2**31, 2**32 - 1, 2**63, 2**64 - 1, 7]
+    big = [0, 1, 52, 58, 64, 2**31, 2**32 - 1, 2**63, 2**64 - 1, 7, 2**62, 2**63 - 1, 2**40, 2**62 + 7]
     try:
         if cls == 2:
             hdr = struct.pack(e + "HHIQQQIHHH", 2, rng.choice([3, 40, 62, 183]), 1, 0, rng.choice(big), 0, rng.choice(big) % 2**32, 64, rng.choice([56, 0, 1, 65535]), rng.choice([0, 1, 2, 7, 65535]))
@@ -112,6 +112,8 @@ def streams(rng, tier):
         for e in ("parse_email.str", "parse_email.bytes", "Metadata.from_email.str", "Metadata.from_email.bytes"):
             add("email", e, doc if e.endswith("bytes") else doc)
         add("elf", "ELFFile", elf_bytes(rng))
+        if rng.random() < 0.4: add("elf-file", "ELFFile.file", elf_bytes(rng))
+        if rng.random() < 0.2: add("elf-file", "ELFFile.file", gen_plat.b2s(gen_plat.rand_elf(rng)[0]))
         add("elf", "ELFFile", gen_plat.b2s(gen_plat.rand_elf(rng)[0]))
         url = rng.choice(URLS)
         if rng.random() < 0.3: url = gen.mutate(rng, url, list("[]:/@#?%\\") + ["\u2100", "\xe9"])
